@@ -135,7 +135,8 @@ CLAIMED['C14'] = dict(
         "< 1 per step for ratios in [0,1]; kappa > 0. The same kernels' float instance is run against the real updates along the two extremal "
         "histories (plus alternating/random) for durations 30..3000 (30000 thorough), and real chains on flat/peaked bounded targets are run "
         "with a generator-draw budget per jump. Float overflow (kappa ~ 709), cancellation (kappa ~ 1e-15) and the unbounded Robbins-Monro "
-        "scale of the bounded/angular variants are real defects found this way and recorded as known findings.",
+        "scale of the bounded/angular variants, and the bounded eigenvector jump from a corner along an eigenvector that leaves the box both ways "
+        "(refuted in Coq: the admissible segment is a point) are real defects found this way and recorded as known findings.",
    note=NUM_NOTE + "Loop time and IEEE overflow cannot be exhibited by the real-number model: explored on the real code only. Positive "
         "semidefiniteness (AdaptM_proofs.v): the second moment and covariance of the full-covariance Andrieu-Thoms proposals (global and "
         "componentwise scaling) and the recursive covariance of the eigenvector proposals stay PSD as quadratic forms along every history "
